@@ -3,6 +3,8 @@
    aggregator scripts thread their key. *)
 From Coq Require Import ZArith List Bool Lia PeanoNat.
 From FV Require Import Common.ListX Common.Store Common.StoreSim Model.C10_Model.
+From FV Require gen.Gen_for_each_client gen.Gen_tree_util gen.Gen_c10_fed_avg gen.Gen_c10_fed_prox gen.Gen_c10_mime gen.Gen_c10_mime_lite
+  gen.Gen_c10_agnostic_fed_avg gen.Gen_c10_hyp_cluster gen.Gen_c10_apfl gen.Gen_c10_compression gen.Gen_c10_optimizers.
 Import ListNotations.
 
 (* ---------------- well-formedness of generated scripts ---------------- *)
@@ -15,9 +17,13 @@ Proof. intros H. induction l; cbn; [reflexivity|]. apply wf_app; auto. Qed.
 Lemma wf_map {A} (f : A -> cmd) l : (forall x, wf_cmd (f x) = true) -> wf_script (map f l) = true.
 Proof. intros H. induction l; cbn; [reflexivity|]. rewrite H. exact IHl. Qed.
 
+Lemma wf_cons c p : wf_cmd c = true -> wf_script p = true -> wf_script (c :: p) = true.
+Proof. intros A B. unfold wf_script in *. cbn. rewrite A, B. reflexivity. Qed.
+
 Ltac wf_tac :=
   repeat first
     [ reflexivity
+    | apply wf_cons; [reflexivity|]
     | apply wf_app
     | apply wf_flat_map; intros
     | apply wf_map; intros
@@ -31,7 +37,7 @@ Lemma wf_fedavg cids : wf_script (script_fedavg cids) = true.
 Proof. unfold script_fedavg. wf_tac. Qed.
 
 Lemma wf_grads_pass cids : wf_script (grads_pass cids) = true.
-Proof. unfold grads_pass, tree_sum_step. wf_tac. Qed.
+Proof. unfold grads_pass, sum_step. wf_tac. Qed.
 
 Lemma wf_mime cids : wf_script (script_mime cids) = true.
 Proof. unfold script_mime. apply wf_app; [reflexivity|]. apply wf_app; [apply wf_grads_pass|]. wf_tac. Qed.
@@ -43,7 +49,7 @@ Proof.
 Qed.
 
 Lemma wf_agnostic W cids : wf_script (script_agnostic W cids) = true.
-Proof. unfold script_agnostic, tree_sum_step. wf_tac. Qed.
+Proof. unfold script_agnostic, sum_step. wf_tac. Qed.
 
 Lemma wf_hyp K cids assign live : wf_script (script_hyp K cids assign live) = true.
 Proof. unfold script_hyp. wf_tac. Qed.
@@ -51,14 +57,14 @@ Proof. unfold script_hyp. wf_tac. Qed.
 Lemma wf_apfl cids : wf_script (script_apfl cids) = true.
 Proof. unfold script_apfl, script_apfl_gen. wf_tac. Qed.
 
-Lemma wf_quant1 cids : wf_script (script_quant1 cids) = true.
-Proof. unfold script_quant1, tree_mean_step. wf_tac. Qed.
+Lemma wf_quant1 arith cids : wf_script (script_quant1 arith cids) = true.
+Proof. unfold script_quant1, mean_step. destruct arith; wf_tac. Qed.
 
 Lemma wf_rotated cids : wf_script (script_rotated cids) = true.
-Proof. unfold script_rotated, tree_mean_step. wf_tac. Qed.
+Proof. unfold script_rotated, mean_step. wf_tac. Qed.
 
 Lemma wf_drive cids : wf_script (script_drive cids) = true.
-Proof. unfold script_drive, tree_mean_step. wf_tac. Qed.
+Proof. unfold script_drive, mean_step. wf_tac. Qed.
 
 Lemma wf_script_of a W K rd : wf_script (script_of a W K rd) = true.
 Proof.
@@ -111,9 +117,13 @@ Qed.
 Lemma nth_error_lt {A} (l : list A) i x : nth_error l i = Some x -> i < length l.
 Proof. intros H. apply nth_error_Some. congruence. Qed.
 
+Lemma keeps_cons r c p : keeps r c = true -> forallb (keeps r) p = true -> forallb (keeps r) (c :: p) = true.
+Proof. intros A B. cbn. rewrite A, B. reflexivity. Qed.
+
 Ltac keeps_tac :=
   repeat first
     [ reflexivity
+    | apply keeps_cons; [reflexivity|]
     | apply keeps_app
     | apply keeps_flat_map; intros
     | match goal with
@@ -160,41 +170,30 @@ Proof.
   reflexivity.
 Qed.
 
-Lemma rng_threaded_quant1 : exec (script_quant1 cids) σ0 = Some σ' -> threaded (split0 k).
-Proof.
-  intros E. unfold script_quant1 in E. cbn [app] in E. rewrite open_state in E.
-  erewrite exec_cons in E by (eapply step_call; [reflexivity | cbn [mapM sto]; rewrite (arr_val_here _ _ _ HR); reflexivity]).
-  erewrite exec_cons in E by (eapply step_call; [reflexivity | cbn [mapM sto alloc]; rewrite (arr_val_old _ _ _ _ HR); reflexivity]).
-  rewrite agg_finish_split, app_assoc in E.
-  match type of E with exec (?mid ++ _) ?σ1 = _ =>
-    assert (FL := fun W KP L5 C5 OA => finish_lemma mid σ1 σ' (length s) (CArr (split0 k) false) W KP L5 C5 OA E) end.
-  destruct FL as (ns & nb & A1 & A2 & A3).
-  - apply wf_app; [|reflexivity]. unfold tree_mean_step. wf_tac.
-  - apply keeps_app; [|reflexivity]. unfold tree_mean_step. keeps_tac.
-  - reflexivity.
-  - cbn [sto alloc]. rewrite <- app_assoc. cbn [app]. rewrite nth_error_app2 by lia. rewrite Nat.sub_diag. reflexivity.
-  - cbn [ven alloc sto]. intros k0 l H. cbn in H. destruct (Nat.eqb k0 21); [|discriminate].
-    inversion H; subst. rewrite app_length. cbn. lia.
-  - exists ns, nb, (length s). auto.
-Qed.
+Ltac rng_one_split E HR :=
+  cbn [app] in E; rewrite open_state in E;
+  erewrite exec_cons in E by (eapply step_call; [reflexivity | cbn [mapM sto]; rewrite (arr_val_here _ _ _ HR); reflexivity]);
+  erewrite exec_cons in E by (eapply step_call; [reflexivity | cbn [mapM sto alloc]; rewrite (arr_val_old _ _ _ _ HR); reflexivity]);
+  try match type of E with exec (?c :: ?rest) _ = _ => change (c :: rest) with ([c] ++ rest) in E end;
+  rewrite agg_finish_split, !app_assoc in E;
+  match type of E with exec (?mid ++ _) ?σ1 = Some ?σ' =>
+    let FL := fresh "FL" in
+    assert (FL := fun W KP L5 C5 OA => finish_lemma mid σ1 σ' (length s) (CArr (split0 k) false) W KP L5 C5 OA E);
+    destruct FL as (ns & nb & A1 & A2 & A3);
+    [ unfold mean_step; wf_tac
+    | unfold mean_step; keeps_tac
+    | reflexivity
+    | cbn [sto alloc]; rewrite <- app_assoc; cbn [app]; rewrite nth_error_app2 by lia; rewrite Nat.sub_diag; reflexivity
+    | cbn [ven alloc sto]; intros k0 l H; cbn in H; destruct (Nat.eqb k0 21); [|discriminate];
+      inversion H; subst; rewrite app_length; cbn; lia
+    | exists ns, nb, (length s); auto ]
+  end.
+
+Lemma rng_threaded_quant1 arith : exec (script_quant1 arith cids) σ0 = Some σ' -> threaded (split0 k).
+Proof. intros E. unfold script_quant1 in E. destruct arith; rng_one_split E HR. Qed.
 
 Lemma rng_threaded_drive : exec (script_drive cids) σ0 = Some σ' -> threaded (split0 k).
-Proof.
-  intros E. unfold script_drive in E. cbn [app] in E. rewrite open_state in E.
-  erewrite exec_cons in E by (eapply step_call; [reflexivity | cbn [mapM sto]; rewrite (arr_val_here _ _ _ HR); reflexivity]).
-  erewrite exec_cons in E by (eapply step_call; [reflexivity | cbn [mapM sto alloc]; rewrite (arr_val_old _ _ _ _ HR); reflexivity]).
-  rewrite agg_finish_split, app_assoc in E.
-  match type of E with exec (?mid ++ _) ?σ1 = _ =>
-    assert (FL := fun W KP L5 C5 OA => finish_lemma mid σ1 σ' (length s) (CArr (split0 k) false) W KP L5 C5 OA E) end.
-  destruct FL as (ns & nb & A1 & A2 & A3).
-  - apply wf_app; [|reflexivity]. unfold tree_mean_step. wf_tac.
-  - apply keeps_app; [|reflexivity]. unfold tree_mean_step. keeps_tac.
-  - reflexivity.
-  - cbn [sto alloc]. rewrite <- app_assoc. cbn [app]. rewrite nth_error_app2 by lia. rewrite Nat.sub_diag. reflexivity.
-  - cbn [ven alloc sto]. intros k0 l H. cbn in H. destruct (Nat.eqb k0 21); [|discriminate].
-    inversion H; subst. rewrite app_length. cbn. lia.
-  - exists ns, nb, (length s). auto.
-Qed.
+Proof. intros E. unfold script_drive in E. rng_one_split E HR. Qed.
 
 Lemma rng_threaded_rotated : exec (script_rotated cids) σ0 = Some σ' -> threaded (split0 (split0 k)).
 Proof.
@@ -207,12 +206,12 @@ Proof.
   erewrite exec_cons in E by (eapply step_call; [reflexivity | cbn [mapM sto alloc]; rewrite (proj2 (H6 _ [] [])); reflexivity]).
   erewrite exec_cons in E by (eapply step_call; [reflexivity |
      cbn [mapM sto alloc]; rewrite <- (app_nil_r [CArr (VApp F_SPLIT0 (vlist [split0 k])) false]); rewrite (proj1 (H6 _ _ [])); reflexivity]).
-  rewrite agg_finish_split, app_assoc in E.
+  rewrite agg_finish_split, !app_assoc in E.
   match type of E with exec (?mid ++ _) ?σ1 = _ =>
     assert (FL := fun W KP L5 C5 OA => finish_lemma mid σ1 σ' (S (S (length s))) (CArr (split0 (split0 k)) false) W KP L5 C5 OA E) end.
   destruct FL as (ns & nb & A1 & A2 & A3).
-  - apply wf_app; [|reflexivity]. unfold tree_mean_step. wf_tac.
-  - apply keeps_app; [|reflexivity]. unfold tree_mean_step. keeps_tac.
+  - apply wf_app; [|reflexivity]. unfold mean_step. wf_tac.
+  - apply keeps_app; [|reflexivity]. unfold mean_step. keeps_tac.
   - cbn [ven alloc sto lookup reg_eqb Nat.eqb]. rewrite !app_length. cbn. f_equal. lia.
   - cbn [sto alloc]. rewrite <- !app_assoc. cbn [app]. rewrite nth_error_app2 by lia.
     replace (S (S (length s)) - length s) with 2 by lia. reflexivity.
@@ -349,3 +348,55 @@ Proof.
   exists s2', st2'. split; [exact H2 | exists R'; auto].
 Qed.
 End Restore.
+
+(* ---------------- tie to the source: translated effect skeletons (tools/anchors/c10_effects.py) -------- *)
+Definition source_effects : list (list ecmd) :=
+  [Gen_c10_fed_avg.federated_averaging_effects; Gen_c10_fed_prox.fed_prox_effects; Gen_c10_mime.mime_effects;
+   Gen_c10_mime_lite.mime_lite_effects; Gen_c10_agnostic_fed_avg.agnostic_federated_averaging_effects;
+   Gen_c10_hyp_cluster.hyp_cluster_effects; Gen_c10_apfl.adaptive_personalized_federated_learning_effects;
+   Gen_c10_compression.uniform_stochastic_quantizer_effects; Gen_c10_compression.rotated_uniform_stochastic_quantizer_effects;
+   Gen_c10_compression.structured_drive_quantizer_effects; Gen_c10_compression.terngrad_quantizer_effects].
+
+(* in the text of every apply(): every in-place write targets an object created by the call, no
+   jit with donate_argnums is applied to anything but such objects, nothing outliving the call is written *)
+Lemma source_effects_wf : forallb (forallb ewf) source_effects = true.
+Proof. reflexivity. Qed.
+
+(* the scripts perform the container effects of the source, in the same order (one and two clients) *)
+Definition effect_instances : list (list ecmd * list ecmd * list ecmd) :=
+  let c1 := [7%Z] in let c2 := [7%Z; 8%Z] in
+  [(script_essence (script_fedavg c1), script_essence (script_fedavg c2), essence Gen_c10_fed_avg.federated_averaging_effects);
+   (script_essence (script_fedavg c1), script_essence (script_fedavg c2), essence Gen_c10_fed_prox.fed_prox_effects);
+   (script_essence (script_mime c1), script_essence (script_mime c2), essence Gen_c10_mime.mime_effects);
+   (script_essence (script_mimelite true c1), script_essence (script_mimelite true c2), essence Gen_c10_mime_lite.mime_lite_effects);
+   (script_essence (script_agnostic 1 c1), script_essence (script_agnostic 3 c2),
+    essence Gen_c10_agnostic_fed_avg.agnostic_federated_averaging_effects);
+   (script_essence (script_hyp 2 c1 [1] [false; true]), script_essence (script_hyp 3 c2 [2; 0] [true; false; true]),
+    essence Gen_c10_hyp_cluster.hyp_cluster_effects);
+   (script_essence (script_apfl c1), script_essence (script_apfl c2),
+    essence Gen_c10_apfl.adaptive_personalized_federated_learning_effects);
+   (script_essence (script_quant1 true c1), script_essence (script_quant1 true c2),
+    essence Gen_c10_compression.uniform_stochastic_quantizer_effects);
+   (script_essence (script_quant1 false c1), script_essence (script_quant1 false c2),
+    essence Gen_c10_compression.terngrad_quantizer_effects);
+   (script_essence (script_rotated c1), script_essence (script_rotated c2),
+    essence Gen_c10_compression.rotated_uniform_stochastic_quantizer_effects);
+   (script_essence (script_drive c1), script_essence (script_drive c2),
+    essence Gen_c10_compression.structured_drive_quantizer_effects)].
+
+Fixpoint ecmds_eqb (a b : list ecmd) : bool :=
+  match a, b with [], [] => true | x :: a', y :: b' => ecmd_eqb x y && ecmds_eqb a' b' | _, _ => false end.
+
+Lemma scripts_match_source :
+  forallb (fun t => match t with (s1, s2, src) => ecmds_eqb s1 src && ecmds_eqb s2 src end) effect_instances = true.
+Proof. vm_compute. reflexivity. Qed.
+
+(* what the library code under apply() donates, as translated from for_each_client.py, tree_util.py and
+   optimizers.py; run_client / sum_step / mean_step / agg_finish are built from these constants *)
+Lemma library_donations :
+  Gen_for_each_client.jit_init_copies = true /\ Gen_for_each_client.jit_init_donates = [] /\
+  Gen_for_each_client.jit_step_donates = [0%Z] /\ Gen_for_each_client.jit_final_donates = [1%Z] /\
+  Gen_tree_util.tree_weight_donates = [] /\ Gen_tree_util.tree_add_donates = [] /\
+  Gen_tree_util.tree_add_eq_donates = [0] /\ Gen_tree_util.tree_weight_eq_donates = [0] /\
+  Gen_c10_optimizers.optax_apply_donates = [].
+Proof. repeat split; reflexivity. Qed.
